@@ -1648,7 +1648,8 @@ func (c *compiler) VisitTernaryExpr(e *ast.TernaryExpr) ast.VisitResult {
 		falseBlock = c.cbb
 
 		// simple case, where both can be treated the same way
-		if lhsIsTemp == rhsIsTemp {
+		// (a primitive is neither claimed nor copied, whatever the operands left in latestIsTemp)
+		if lhsIsTemp == rhsIsTemp || lhsTyp.IsPrimitive() {
 			c.latestIsTemp = lhsIsTemp
 		} else {
 			c.latestIsTemp = true
